@@ -34,7 +34,7 @@ def canonical(dotted: str) -> str:
     if d.startswith("math."):
         # math.* scalar functions behave like their numpy namesakes
         name = d[5:]
-        if name in ("cos", "sin", "tan", "sqrt", "pi", "acos", "atan2", "exp"):
+        if name in ("cos", "sin", "tan", "sqrt", "pi", "acos", "atan2", "exp", "cbrt"):
             return "numpy." + {"acos": "arccos", "atan2": "arctan2"}.get(name, name)
     return d
 
@@ -540,7 +540,10 @@ def call_ext(interp, ext, node, args, kwargs, st):
                 d = dim_collapse(a0.dim)
                 if dim_known(d) and d[1] != 0:
                     interp.emit(st, "nondimless", node, fn=name, arg=a0)
-            return fresh(D0, kind=a0.kind if a0 is not None and a0.kind in ("float", "arr") else "arr")
+            tsym = None
+            if a0 is not None and a0.sym is not None and a0.kind in ("float", "int"):
+                tsym = Poly.atom(f"{name}<{a0.sym!r}>")
+            return fresh(D0, kind=a0.kind if a0 is not None and a0.kind in ("float", "arr") else "arr", sym=tsym)
         if name in ALLOC_ANY:
             out = fresh(ANY, tags=frozenset(["alloc"]))
             if a0 is not None and a0.items is not None and a0.items and a0.items[-1].has_const() \
